@@ -20,10 +20,10 @@ def slow_scenarios(rng, p):
     return out
 
 
-def make_corpus(c, nflow, npar, nscen, seed_off=0, par_exec=0, features=None, progs=None):
+def make_corpus(c, nflow, npar, nscen, seed_off=0, par_exec=0, features=None, progs=None, tag=""):
     """Renders programs into a scratch module. Returns (root, programs by package, jobs)."""
     rng = random.Random(c.seed * 1000003 + seed_off)
-    root = os.path.join(c.scratch, "vgen%d" % seed_off)
+    root = os.path.join(c.scratch, "vgen%d%s" % (seed_off, tag))
     if progs is None:
         flows = [render.gen_flow(rng, "F%d" % i) for i in range(1, nflow + 1)]
         pars = [render.gen_parallel(rng, "P%d" % i) for i in range(1, npar + 1)]
@@ -108,26 +108,37 @@ def validate(c, trace, name):
     return json.loads(json.loads(m.group(3))), int(m.group(2))
 
 
-def pipeline(c, nflow, npar, nscen, seed_off=0, par_exec=0, race=False, progs=None, mode="base", cff_extra=()):
-    """The whole path for one corpus.  Violations are filed in c; returns number of executions."""
+def pipeline(c, nflow, npar, nscen, seed_off=0, par_exec=0, race=False, progs=None, mode="base", cff_extra=(), remap=None, info=None):
+    """The whole path for one corpus.  Violations are filed in c; returns number of executions.
+    remap: property id -> property id under which a monitor violation is filed (C20 files the
+    disagreement of a mode with the reference monitor under its own id); info: dict that receives
+    the trace path, the jobs and the corpus root."""
+    def viol(prop, what, obj):
+        if remap:
+            what = "[%s mode violates %s] %s" % (mode, prop, what)
+            prop = remap(prop)
+        c.violation(prop, what, obj)
+
     cff = c.build_cff()
-    root, pk, jobs = make_corpus(c, nflow, npar, nscen, seed_off, par_exec, progs=progs)
+    root, pk, jobs = make_corpus(c, nflow, npar, nscen, seed_off, par_exec, progs=progs, tag="" if mode == "base" and not cff_extra else "-" + mode + "".join(cff_extra))
+    if info is not None:
+        info.update(root=root, jobs=jobs, pk=pk)
     byname = {p["name"]: p for ps in pk.values() for p in ps}
     c.log("cff on %d programs (%s)" % (len(byname), mode))
     problems = generate(c, cff, root, pk, mode, cff_extra)
     for pkg, kind, text in problems:
         if kind == "crash":
-            c.violation("C13", "cff died with a Go panic on package %s:\n%s" % (pkg, text[-1500:]),
+            viol("C13", "cff died with a Go panic on package %s:\n%s" % (pkg, text[-1500:]),
                         dict(kind="gen-corpus", seed_off=seed_off, pkg=pkg, nflow=nflow, npar=npar))
         else:
-            c.violation("C14", "cff rejected a package of well-formed programs (%s):\n%s" % (pkg, text[-1500:]),
+            viol("C14", "cff rejected a package of well-formed programs (%s):\n%s" % (pkg, text[-1500:]),
                         dict(kind="gen-corpus", seed_off=seed_off, pkg=pkg, nflow=nflow, npar=npar, programs=pk[pkg][:3]))
     if problems:
         c.inconclusive.append("cff did not generate code for the rendered corpus (%s): %s" % (problems[0][1], problems[0][2][-300:]))
         return 0
     binary, err = build_runner(c, root, race)
     if binary is None:
-        c.violation("C13", "generated code does not compile:\n" + err[-2000:], dict(kind="gen-corpus", seed_off=seed_off, nflow=nflow, npar=npar))
+        viol("C13", "generated code does not compile:\n" + err[-2000:], dict(kind="gen-corpus", seed_off=seed_off, nflow=nflow, npar=npar))
         c.inconclusive.append("generated code does not compile: " + err[-400:])
         return 0
     c.log("executing %d scenarios" % len(jobs))
@@ -138,15 +149,17 @@ def pipeline(c, nflow, npar, nscen, seed_off=0, par_exec=0, race=False, progs=No
         for rep in text.split("WARNING: DATA RACE")[1:]:
             rep = rep.split("==================")[0]
             if "go.uber.org/cff" in rep or "vgen/" in rep:
-                c.violation("C12", "race detector report while executing generated code:\n" + rep[:1500],
+                viol("C12", "race detector report while executing generated code:\n" + rep[:1500],
                             dict(kind="race-gen", seed_off=seed_off, report=rep[:5000]))
     if r.returncode not in (0, 66):
         job = next((j for j in jobs if j["exec"] == last), None)
-        c.violation("C04", "the process executing generated code died (exit %d) during execution %s:\n%s" % (r.returncode, last, text[-1500:]),
+        viol("C04", "the process executing generated code died (exit %d) during execution %s:\n%s" % (r.returncode, last, text[-1500:]),
                     dict(kind="gen-exec", program=byname.get(job["prog"]) if job else None, job=job))
         c.inconclusive.append("runner died: " + text[-300:])
         return 0
-    viols, nexec = validate(c, trace, "t%d" % seed_off)
+    viols, nexec = validate(c, trace, "t%d%s" % (seed_off, "" if mode == "base" else "-" + mode))
+    if info is not None:
+        info.update(trace=trace)
     c.cov["traces_validated_against_impl"] += nexec
     c.cov["evaluations"] += nexec
     c.cov["programs"] = c.cov.get("programs", 0) + len(byname)
@@ -159,7 +172,7 @@ def pipeline(c, nflow, npar, nscen, seed_off=0, par_exec=0, race=False, progs=No
         if prop in ("HARNESS", "INCONCLUSIVE"):
             c.inconclusive.append("execution %s stamp %s: %s" % (ex, stamp, what))
             continue
-        c.violation(prop, "%s (program %s, execution %s, event %s)" % (what, job["prog"] if job else "?", ex, stamp),
+        viol(prop, "%s (program %s, execution %s, event %s)" % (what, job["prog"] if job else "?", ex, stamp),
                     dict(kind="gen-exec", program=byname.get(job["prog"]) if job else None, job=job, mode=mode))
     return nexec
 
